@@ -137,7 +137,7 @@ class Mon:
         return o
 
 
-ALLOW_LISTS_JWS = [None, [], ["HS256"], ["HS384"], ["RS256", "ES256"], ["none"], ["HS256", "none"], JWS_REG, JWS_REG + ["foo", "HS257"], ["foo"],
+ALLOW_LISTS_JWS = [None, [], ["HS256", "HS384"], ["HS256,HS384"], ["HS256 HS384"], ["HS256", "HS384", ""], ["HS256"], ["HS384"], ["RS256", "ES256"], ["none"], ["HS256", "none"], JWS_REG, JWS_REG + ["foo", "HS257"], ["foo"],
                    ["ES512", "EdDSA", "ES256K", "PS384"], ["hs256"], ["HS512", "RS384", "RS512", "ES384", "PS256", "PS512"]]
 
 
@@ -231,7 +231,7 @@ def jws_ops(mon: Mon, name, allow, mode, rng, forms=None):
         mon.run({**d0, "op": "verify", "form": "validate_compact"}, U, exp_c, vc, none_verify=nv)
 
 
-ALLOW_LISTS_JWE = [None, [], ["A128KW", "A128GCM"], ["dir", "A256GCM", "DEF"], ["RSA-OAEP", "A128CBC-HS256"], ["A192KW", "A192GCM", "DEF"],
+ALLOW_LISTS_JWE = [None, [], ["A128KW", "A128GCM"], ["A128KW,A128GCM"], ["A128KW", "A128GCM", "A128KW,A128GCM"], ["dir", "A256GCM", "DEF"], ["RSA-OAEP", "A128CBC-HS256"], ["A192KW", "A192GCM", "DEF"],
                    JWE_ALG_REG + JWE_ENC_REG + ["DEF"], ["ECDH-ES", "A128GCM", "foo"], ["foo"], ["A128KW"], ["A128GCM"],
                    ["PBES2-HS256+A128KW", "A128GCMKW", "RSA1_5", "A256CBC-HS512", "DEF"], g.ALGS + g.ENCS + ["DEF"], ["ECDH-1PU", "C20P", "XC20P", "A128GCM"]]
 
@@ -306,6 +306,14 @@ def jwe_ops(mon: Mon, alg, enc, zipv, allow, mode, rng):
     mon.run({**d0, "op": "decrypt", "form": "flattened"}, U, exp, lambda: j.jwe.decrypt_json(copy.deepcopy(t_f), jpriv, sender_key=jsp, **kw()))
     if mode in ("registry", "list+registry") and allow is not None and not sk:
         mon.run({**d0, "op": "jwt.decode", "form": "jwe"}, U, exp, lambda: j.jwt.decode(t_c, jpriv, **kw()))
+    if real_names and zipv is not None and exp != "ok":
+        # the same header over an EMPTY decrypted message: an unusable zip (or alg / enc) name is refused all the same
+        try:
+            t_e = g.make("compact", enc, [(alg, rk, sk)], b"", extra_protected={"zip": zipv}).token
+        except Exception:
+            t_e = None
+        if t_e is not None:
+            mon.run({**d0, "op": "decrypt", "form": "compact-empty-message"}, U, exp, lambda: j.jwe.decrypt_compact(t_e, jpriv, sender_key=jsp, **kw()))
 
 
 def history(mon: Mon, rng, length):
